@@ -222,16 +222,20 @@ where
     /// could invalidate the sort order so no general method to mutate the
     /// records is provided.
     ///
-    /// This method offers a limited ability to mutate records in-place
-    /// however because it only permits mutating of the resource record data
-    /// of an existing record which doesn't impact the sort order because the
-    /// data is not part of the sort key.
+    /// This method offers a limited ability to mutate records in-place: it
+    /// only permits replacing the resource record data of an existing
+    /// record. Because the record data takes part in the canonical ordering
+    /// of the records within an RRset, the sort order is re-established
+    /// afterwards.
     pub fn update_data<F>(&mut self, matcher: F, new_data: D)
     where
         F: Fn(&Record<N, D>) -> bool,
+        N: ToName,
+        D: RecordData + CanonicalOrd,
     {
         if let Some(rr) = self.records.iter_mut().find(|rr| matcher(rr)) {
             *rr.data_mut() = new_data;
+            Sort::sort_by(&mut self.records, CanonicalOrd::canonical_cmp);
         }
     }
 
